@@ -9,6 +9,7 @@ import (
 	"fmt"
 	"net/http"
 	"net/http/httptest"
+	"log"
 	"os"
 	"sort"
 	"strconv"
@@ -376,7 +377,7 @@ func TestVerifC01Pipeline(t *testing.T) {
 		accepted []string
 	}{{"one/passing", false, []string{"passing"}}, {"all/passing", true, []string{"passing"}}, {"one/passing+warning", false, []string{"passing", "warning"}}, {"all/passing+warning", true, []string{"passing", "warning"}}}
 	L := ev.Begin("C01", "c01-pipeline", "model_checking",
-		"explicit-state BFS over registry histories through the real pipeline consul.NewBackend -> ServiceMonitor.Watch / watchKV -> main.watchBackend -> route.SetTable against an in-process fake Consul HTTP API (agent/self, health/state/any and kv with blocking queries on the index, catalog/service): 3 instances of 2 services on 2 nodes; events: (de)register, check flips to passing/warning/critical, a second check for strict mode, agent down/up per node, node and service maintenance, re-registration of an instance with another prefix and port, a Consul restore (the index restarts low), an instance gaining a plain tag no route command can carry, a fault toggle (catalog lookups answer 500; while it is on only 'no unhealthy instance is routed' is asserted), KV override in {none, route del, route add, route weight, syntax error, two routes with a register= alias}; per checksRequired mode and accepted-status list. After every event the harness waits for causal quiescence (both watchers parked on blocking queries at the current index, then one state-preserving index bump). invariant: active table == instances healthy under the stated rule + KV commands on top; with an invalid KV text the last good table stays. non-trivial = transition that changes the set of healthy instances or the KV text")
+		"explicit-state BFS over registry histories through the real pipeline consul.NewBackend -> ServiceMonitor.Watch / watchKV -> main.watchBackend -> route.SetTable against an in-process fake Consul HTTP API (agent/self, health/state/any and kv with blocking queries on the index, catalog/service): 3 instances of 2 services on 2 nodes; events: (de)register, check flips to passing/warning/critical, a second check for strict mode, agent down/up per node, node and service maintenance, re-registration of an instance with another prefix and port, a Consul restore (the index restarts low), an instance gaining a plain tag no route command can carry, a fault toggle (catalog lookups answer 500; while it is on only 'no unhealthy instance is routed' is asserted), KV override in {none, route del, route add, route weight, syntax error, two routes with a register= alias}; per checksRequired mode and accepted-status list. After every event the harness waits for causal quiescence (both watchers parked on blocking queries at the current index, then one state-preserving index bump). invariant: active table == instances healthy under the stated rule + KV commands on top, and it is that table already before the barrier's extra update (differential, with a 15s allowance for watchBackend to finish); with an invalid KV text the last good table stays. non-trivial = transition that changes the set of healthy instances or the KV text")
 	maxDepth := 3
 	if ev.Thorough() {
 		maxDepth = 4
@@ -388,6 +389,26 @@ func TestVerifC01Pipeline(t *testing.T) {
 	}
 	deadline := ev.Deadline(420, 3000)
 	events := c01Events()
+	if dbg := os.Getenv("VERIF_C01_DEBUG"); dbg != "" {
+		// replay one history (event names separated by '|') with fabio's log on stderr
+		log.SetOutput(os.Stderr)
+		init := c01Model{Reg: [3]bool{true, true, true}, Check: [3]string{"passing", "passing", "passing"}}
+		pipe := newC01Pipe(false, []string{"passing"}, init)
+		var hist []int
+		for _, n := range strings.Split(dbg, "|") {
+			for i, e := range events {
+				if e.name == n {
+					hist = append(hist, i)
+				}
+			}
+		}
+		fmt.Fprintln(os.Stderr, "DEBUG history", hist)
+		r, pre, fin, ok := pipe.runObserving(init, hist, events, nil)
+		time.Sleep(2 * time.Second)
+		fmt.Fprintf(os.Stderr, "DEBUG ok=%v\nreset=%q\npre=%q\nfinal=%q\nnow=%q\n", ok, r, pre, fin, c01Canon(route.GetTable()))
+		L.End(true)
+		return
+	}
 	var states, transitions int64
 	timedOut := false
 	maxReached := 0
@@ -424,13 +445,23 @@ func TestVerifC01Pipeline(t *testing.T) {
 					}
 					c02Current("variant " + v.name + " history: " + strings.Join(names, " -> "))
 					// fresh pipeline, replay
-					reset, got, ok := pipe.run(init, hist, events)
+					reset, pre, got, ok := pipe.runObserving(init, hist, events, nil)
 					transitions++
 					L.Case()
 					d := map[string]interface{}{"variant": v.name, "history": names}
 					if !ok {
 						L.Violation("pipeline-did-not-settle", d)
 						continue
+					}
+					if pre != got {
+						// the table differed before the barrier's extra update: either watchBackend had not finished with the
+						// event yet, or the event itself left a wrong table that only a further update repairs - replay and give it time
+						_, pre2, got2, ok2 := pipe.runObserving(init, hist, events, &got)
+						if ok2 && got2 == got && pre2 != got {
+							d["active_after_the_event"], d["active_after_one_more_unchanged_update"] = strings.Split(pre2, "\n"), strings.Split(got, "\n")
+							L.Violation("active-table-wrong-until-a-further-update-arrives", d)
+							continue
+						}
 					}
 					if reset != ig {
 						d["after_reset"], d["expected"] = strings.Split(reset, "\n"), strings.Split(ig, "\n")
@@ -578,18 +609,38 @@ func (p *c01Pipe) quiesce() bool {
 // run drives the registry back to init, replays the history and returns the
 // canonical table after the reset and after the history.
 func (p *c01Pipe) run(init c01Model, hist []int, events []c01Event) (afterReset, final string, ok bool) {
+	afterReset, _, final, ok = p.runObserving(init, hist, events, nil)
+	return
+}
+
+// runObserving also reports the table as it stands after the last event and BEFORE the state-preserving index
+// bump of the quiescence barrier (the bump makes both watchers publish their unchanged text once more, which
+// repairs a table that was built wrongly from the event itself). Both watchers are parked by then, but
+// watchBackend may still be working on what they sent: if waitFor is given (a pointer: the empty table is a table), the table is given up to 15s to
+// become waitFor before the bump.
+func (p *c01Pipe) runObserving(init c01Model, hist []int, events []c01Event, waitFor *string) (afterReset, beforeBump, final string, ok bool) {
 	p.fc.apply(init)
 	if !p.quiesce() {
-		return "", "", false
+		return "", "", "", false
 	}
 	afterReset = c01Canon(route.GetTable())
 	m := init
-	for _, h := range hist {
+	for k, h := range hist {
 		m = events[h].apply(m)
 		p.fc.apply(m)
+		if k == len(hist)-1 {
+			if !p.fc.settle() {
+				return afterReset, "", "", false
+			}
+			beforeBump = c01Canon(route.GetTable())
+			for deadline := time.Now().Add(15 * time.Second); waitFor != nil && beforeBump != *waitFor && time.Now().Before(deadline); {
+				time.Sleep(5 * time.Millisecond)
+				beforeBump = c01Canon(route.GetTable())
+			}
+		}
 		if !p.quiesce() {
-			return afterReset, "", false
+			return afterReset, beforeBump, "", false
 		}
 	}
-	return afterReset, c01Canon(route.GetTable()), true
+	return afterReset, beforeBump, c01Canon(route.GetTable()), true
 }
